@@ -162,4 +162,4 @@ pub fn replay(ctx: &Ctx, v: &Value) -> Result<Outcome, String> {
     Ok(check(&e, &h, &hc, &c))
 }
 
-pub const RULE: &str = "accepted proofs of the build (one per layout family, preferring masked-hash proofs, plus the fixture); one numeric slot (any configuration number incl. nested table/vector/FRI configs and per-layer lists, public-input scalar, dynamic parameter, segment bound, PoW bits, nonce) set to an extreme (0,1,2,2^12,2^16,2^20,2^40,2^64-1,2^64,2^128,p-2,p-1), in 25% of cases a second slot too, plus 0..2 consistent re-declarations of dependent fields (query count, layer count with resized vectors, trace exponent with all heights, last-layer bound with coefficients, friendly count, dynamic column counts, blow-up with heights); StarkProof::verify is run with the security level derived from the config (as the CLI does) in child processes with a 20 s per-case CPU-time watchdog (honest run: ~0.05 s), a 3 GiB address-space limit, a counting allocator (violation if bytes requested exceed 64x the honest run of the same proof, at least 64 MiB) and a per-case CPU budget of 40x the honest run of the same proof (at least 2 s; process CPU time, so machine load cannot flip a verdict). Non-trivial = the mutated proof passes StarkConfig::validate and validate_public_input (the value reaches the loops); class = slot group x reaches; distinct by case hash";
+pub const RULE: &str = "accepted proofs of the build (one per layout family, preferring masked-hash proofs, plus the fixture); one numeric slot (any configuration number incl. nested table/vector/FRI configs and per-layer lists, public-input scalar, dynamic parameter, segment bound, PoW bits, nonce) set to an extreme (0,1,2,2^12,2^16,2^20,2^31+1,2^32,2^40,2^63-1,2^63,2^64-1,2^64,2^128,p-2,p-1), in 25% of cases a second slot too, plus 0..2 consistent re-declarations of dependent fields (query count, layer count with resized vectors, trace exponent with all heights, last-layer bound with coefficients, friendly count, dynamic column counts, blow-up with heights); StarkProof::verify is run with the security level derived from the config (as the CLI does) in child processes with a 20 s per-case CPU-time watchdog (honest run: ~0.05 s), a 3 GiB address-space limit, a counting allocator (violation if bytes requested exceed 64x the honest run of the same proof, at least 64 MiB) and a per-case CPU budget of 40x the honest run of the same proof (at least 2 s; process CPU time, so machine load cannot flip a verdict). Non-trivial = the mutated proof passes StarkConfig::validate and validate_public_input (the value reaches the loops); class = slot group x reaches; distinct by case hash";
